@@ -62,7 +62,7 @@ pub fn construct(k: usize, i: usize, sp: &str) -> MDef {
         6 => st(&n("SRefs", i), vec![MField::new("a", l("HS")), MField::new("b", l("HE")), MField::new("c", l("HC")), MField::new("d", l("HV").opt()), MField::new("HS", l("HS")), MField::new("HK", MType::seq(l("HK")))]),
         7 => st(&n("SAlias", i), vec![MField::new("a", l("HA")), MField::new("b", l("HB").opt()), MField::new("c", l("HP")), MField::new("d", l("HQ").attr(cs("cs::use"))), MField::new("e", l("HD"))]),
         8 => iface(&n("IEmpty", i), vec![], vec![]),
-        9 => iface(&n("IBase", i), vec![l("HI")], vec![]),
+        9 => iface(&n("IBase", i), vec![l("HJ")], vec![]), // (HJ has a base of its own, which is NOT a base written here)
         10 => iface(&n("IBases", i), vec![l("HI"), l("HJ")], vec![op("own", vec![], MRet::None)]),
         11 => iface(&n("IOps", i), vec![], vec![op("a", vec![], MRet::None), op("b", vec![], MRet::None)]),
         12 => iface(&n("IRet", i), vec![], vec![op("get", vec![MParam::new("key", MType::prim("string"))], MRet::Single { tag: None, stream: false, ty: l("HS") }), op("HE", vec![MParam::new("HC", l("HC")), MParam::new("other", l("HE"))], MRet::Single { tag: None, stream: false, ty: l("HE") })]),
